@@ -22,6 +22,7 @@ import inspect
 import io
 import logging
 import os.path
+import tokenize
 from pathlib import Path
 
 from cutplace import _compat, _tools, checks, data, errors, fields, rowio
@@ -388,7 +389,7 @@ class Cid(object):
                         field_type += "."
                     field_type += _tools.validated_python_name("field type part", part)
                 assert field_type, "empty field type must be detected by validated_python_name()"
-            except NameError as error:
+            except (NameError, tokenize.TokenError) as error:
                 raise errors.InterfaceError(str(error), self._location)
         field_class = self._create_field_format_class(field_type)
         self._location.advance_cell()
@@ -403,6 +404,12 @@ class Cid(object):
             error_location = error.location if error.location is not None else self._location
             error.prepend_message("cannot declare field %s" % _compat.text_repr(field_name), error_location)
             raise error
+        except tokenize.TokenError as error:
+            raise errors.InterfaceError(
+                "cannot declare field %s: length and rule must consist of valid tokens: %s"
+                % (_compat.text_repr(field_name), error),
+                self._location,
+            )
 
         # Validate field length.
         # TODO #82: Cleanup validation for declared field formats.
@@ -510,7 +517,10 @@ class Cid(object):
         _log.debug("create check: %s(%r, %r)", check_type, check_description, check_rule)
         check_class = self._create_check_class(check_type)
         check = check_class.__new__(check_class, check_description, check_rule, self._field_names, self._location)
-        check.__init__(check_description, check_rule, self._field_names, self._location)
+        try:
+            check.__init__(check_description, check_rule, self._field_names, self._location)
+        except tokenize.TokenError as error:
+            raise errors.InterfaceError("check rule must consist of valid tokens: %s" % error, self._location)
         self._location.set_cell(1)
         existing_check = self._check_name_to_check_map.get(check_description)
         if existing_check is not None:
